@@ -402,7 +402,10 @@ VALGRIND = ["valgrind", "-q", "--error-limit=no", "--num-callers=14", "--leak-ch
             "--suppressions=" + _os.path.join(_os.path.dirname(_os.path.dirname(_os.path.abspath(__file__))), "harness", "c08.supp")]
 
 def _c08_target(opt):
-    return dict(name="c08_ct_" + opt, src="c08_ct.cpp", flavour="ct" + opt, libs=["-lcrypto"], c_src=["c09_shim.c"], wrap=VALGRIND)
+    wrap = list(VALGRIND)
+    if opt == "O2":   # one taint-tracking artefact of gcc -O2, see the file
+        wrap.append("--suppressions=" + _os.path.join(_os.path.dirname(_os.path.dirname(_os.path.abspath(__file__))), "harness", "c08_O2.supp"))
+    return dict(name="c08_ct_" + opt, src="c08_ct.cpp", flavour="ct" + opt, libs=["-lcrypto"], c_src=["c09_shim.c"], wrap=wrap)
 
 PROPS["C08"] = dict(
     level="exploration",
